@@ -241,15 +241,24 @@ def run_meadows(ctx, scratch):
     # --- single participant, multi-task json
     p = pet_names(rng, 1)[0]
     stim = stimuli_names(rng, n_stim)
-    tasks, expect = [], []
+    tasks, expect, expect_all = [], [], []
+    reordered = bool(rng.integers(2))       # one later task lists the same stimuli in another order
     for t in range(int(rng.integers(2, 5))):
         ttype = gen.pick(rng, ['multiarrange', 'multiarrange', 'survey'])
         entry = {'task': {'task_type': ttype, 'name': f'task{t}'}}
         if ttype == 'multiarrange':
             u = np.round(rng.uniform(0.1, 2, size=n_pair), 4)
-            entry['stimuli'] = [{'name': s} for s in stim]
+            own = list(stim)
+            if reordered and expect_all and len(expect_all) == len(expect):
+                own = [stim[int(i)] for i in rng.permutation(len(stim))]
+                if own == list(stim):
+                    own = own[::-1]
+            entry['stimuli'] = [{'name': s} for s in own]
             entry['rdm'] = u.tolist()
-            expect.append(dict(participant=p, task=f'task{t}', stimuli=stim, utv=u, tidx=t))
+            ex = dict(participant=p, task=f'task{t}', stimuli=own, utv=u, tidx=t)
+            expect_all.append(ex)
+            if own == list(stim):
+                expect.append(ex)         # tasks with another stimulus order are skipped by the importer ("Varying stimuli")
         tasks.append(entry)
     if expect:
         path = os.path.join(scratch, f'Meadows_{exp}_v_v1_{p}_tree.json')
@@ -260,6 +269,8 @@ def run_meadows(ctx, scratch):
         ok, r = ctx.guarded('meadows_json', sig, load_rdms, path, sort=sort, data=wit)
         if ok:
             ctx.case('meadows_json', sig, sample={'file': os.path.basename(path), 'n_tasks': len(tasks)})
+            if r.n_rdm == len(expect_all) and len(expect_all) != len(expect):
+                expect = expect_all      # the differently ordered task was kept: then its values must sit at its own labels
             check_loaded(ctx, 'meadows_json', sig, r, expect, wit, sort)
             if [int(v) for v in r.rdm_descriptors['task_index']] != [e['tidx'] for e in expect]:
                 ctx.fail('meadows_json', dict(sig, what='task_index'), f'{r.rdm_descriptors["task_index"]}', wit())
